@@ -106,6 +106,7 @@ func TestRaceStage(t *testing.T) {
 		{"scenarios", "TestRelayScenarios", nil, []string{"-rapid.checks=" + checks, "-rapid.seed=" + seed, "-rapid.shrinktime=1s"}},
 		{"stress", "TestTwoNamesStress", []string{"VERIF_C11_STRESS_MS=1500", "VERIF_C11_STRESS_SESSIONS=8"}, nil},
 		{"fixed", "TestFixedRegressions", nil, nil},
+		{"fixed6", "TestFixedRound6", nil, nil},
 		{"stats", "(TestFixedStats|TestStatsScenarios)", nil, []string{"-rapid.checks=" + statsChecks(checks), "-rapid.seed=" + seed, "-rapid.shrinktime=1s"}},
 	}
 	// judge returns whether the known packer finding was hit; any unlisted report fails the test
